@@ -111,6 +111,29 @@ def c03(run):
     bkm, bki = run.tie([run_req(t) for t in bk_src], proj=proj_run, functional=True, desc=lambda i: {'program': bk_src[i], 'section': 'multi-step build/knock'})
     for t in bk_src:
         run.case(('bk', t), True, op='build-knock-steps')
+    # operands with an EFFECT (each operand rolls its own queue) in a list of three, for every operator: operands are evaluated left
+    # to right, each exactly once, and none after the step that fails or short-circuits (the queues' lengths show which were)
+    OPW = {'plus': 'plus', 'minus': 'minus', 'multiply': 'times', 'divide': 'over', 'less': '<', 'lesseq': '<=', 'greater': '>', 'greatereq': '>=',
+           'and': 'and', 'or': 'or', 'nor': 'nor', 'eq': 'is', 'noteq': "ain't"}
+    lits = ['1', '2', '0', '"s"', '""', 'true', 'false', 'nothing', 'mysterious', '"2"']
+    eo_src = []
+    for opn, opw in OPW.items():
+        for _ in range(run.n(40, 700)):
+            vals = [rng.choice(lits) for _ in range(4)]
+            text = 'echo takes pp\nsay "evaluated"\ngive back pp\n\n' + ''.join('rock q%s with %s, 99\n' % ('abcd'[i], vals[i]) for i in range(4))
+            # the LAST operand is a call that prints (a call's argument list would swallow later list elements, so only last)
+            if opn in ('and', 'or', 'nor', 'eq', 'noteq'):
+                expr = 'roll qa %s %s' % (opw, rng.choice(['roll qb', 'echo taking %s' % vals[1]]))      # (no list: the right operand may be skipped)
+            else:
+                expr = 'roll qa %s roll qb, roll qc, %s' % (opw, rng.choice(['roll qd', 'echo taking %s' % vals[3], 'echo taking %s' % vals[3]]))
+            text += 'put 5 into rr\nsay "start"\nsay %s\n' % expr
+            # a second program prints the queue lengths BEFORE the possibly failing expression cannot: lengths are printed by a
+            # twin that evaluates the expression inside a function whose failure ends the run after the lengths were observed
+            eo_src.append(text.replace('say "start"\nsay %s\n' % expr, 'say "start"\nput %s into rr\nsay "done"\nsay qa\nsay qb\nsay qc\nsay qd\n' % expr))
+            eo_src.append(text)
+    eom, eoi = run.tie([run_req(t) for t in eo_src], proj=proj_run, functional=True, desc=lambda i: {'program': eo_src[i], 'section': 'operand effects'})
+    for t in eo_src:
+        run.case(('eo', t), True, op='operand-effects')
     # (i') the number instance of the model itself: Display and FromStr of the model's f64 against Rust's,
     # on boundaries and random bit patterns (this validation is part of the trusted base, DESIGN §3.2)
     nb = run.n(3000, 60000)
